@@ -162,7 +162,8 @@ def cache_combo(item):
                 [(h[0], h[3]) for h in hist],)
         if why and len(stats["fails"]) < 3:
             stats["fails"].append({"why": why, "schedule": list(s.taken),
-                                   "bodies": bodies_ops})
+                                   "bodies": bodies_ops,
+                                   "prepop": list(prepop)})
 
     # the lock has to be substituted inside make_bodies: wrap
     def mb():
@@ -641,7 +642,14 @@ def run(res, tier, seed):
         if not st["complete"]:
             incomplete += 1
         for f in st["fails"]:
-            res.violation({"part": "cache-concurrent", "why": f["why"][:50]},
+            # (an ID stored twice - prepopulated and set again, or set by two
+            # bodies - is the input of the known duplicate-ID defect)
+            ids = [op[1] for b in f.get("bodies", []) if b for op in b
+                   if op and op[0] == "set"] + \
+                [k for (k, _) in f.get("prepop", [])]
+            dup = len(ids) != len(set(ids))
+            res.violation({"part": "cache-concurrent", "why": f["why"][:50],
+                           "duplicate_id_in_history": dup},
                           f, {"part": "cache-concurrent", "case": f})
     res.section("cache_concurrent", combos=len(items), schedules=sch,
                 preemption_bound={"quick set": bound, "wider set": 2,
@@ -650,8 +658,10 @@ def run(res, tier, seed):
     res.sample({"harness": "SessionCache", "threads": items[5][2],
                 "prepopulated": items[5][1], "maxEntries": items[5][0]})
     # RSA
+    # (three threads stay at bound 2: the tree is only sharded at depth 1,
+    # one shard of (3, 1, bound 3) runs for more than the item time limit)
     rcombos = [(2, 1, bound), (2, 2, bound if tier == "thorough" else 1),
-               (3, 1, bound if tier == "thorough" else 1)]
+               (3, 1, 2 if tier == "thorough" else 1)]
     if tier == "thorough":
         rcombos.append((3, 2, 2))
     ritems = []
